@@ -1,5 +1,6 @@
 import XalanModel.C04.Model
 import XalanModel.C04.Spec
+import XalanModel.C04.CommentPI
 import Driver.Util
 /-
 xm_c04: replays SAX event scripts on the Lean model of FormatterToXMLUnicode + writers + buffers.
@@ -21,13 +22,13 @@ def hex2 (n : Nat) : String :=
 def hexOfBytes (l : List Nat) : String :=
   if l.isEmpty then "-" else String.join (l.map hex2)
 
-def encOf (name : String) : Option Enc :=
-  if name = "UTF-8" then some ⟨.utf8, fun _ => true⟩
-  else if name = "UTF-16" then some ⟨.utf16, fun _ => true⟩
-  else if name = "ISO-8859-1" then some ⟨.other, fun c => decide (c < 256)⟩
-  else if name = "US-ASCII" then some ⟨.other, fun c => decide (c < 128)⟩
+def encOf (fx : Fixes) (name : String) : Option Enc :=
+  if name = "UTF-8" then some ⟨.utf8, fun _ => true, fx⟩
+  else if name = "UTF-16" then some ⟨.utf16, fun _ => true, fx⟩
+  else if name = "ISO-8859-1" then some ⟨.other, fun c => decide (c < 256), fx⟩
+  else if name = "US-ASCII" then some ⟨.other, fun c => decide (c < 128), fx⟩
   -- UTF-32BE: as observed from ICU's canTranscodeTo through XalanOutputStream: planes 0-15, no lone surrogate unit
-  else if name = "UTF-32BE" then some ⟨.other, fun c => decide (c < 0x100000 ∧ ¬ (0xD800 ≤ c ∧ c ≤ 0xDFFF))⟩
+  else if name = "UTF-32BE" then some ⟨.other, fun c => decide (c < 0x100000 ∧ ¬ (0xD800 ≤ c ∧ c ≤ 0xDFFF)), fx⟩
   else none
 
 def verOf (s : String) : Option Ver :=
@@ -111,8 +112,8 @@ def deliver (encName : String) (e : Enc) (wchunks : List (List Nat)) : Except St
       else if cs.all (fun c => c.all e.canEnc) then .ok (cs.flatten, cs.map List.length)
       else .error "transcode"
 
-def runDoc (cd : CDataCfg) (enc ver : String) (evs : List String) : String :=
-  match encOf enc, verOf ver, evs.mapM parseEvent with
+def runDoc (cd : CDataCfg) (fx : Fixes) (enc ver : String) (evs : List String) : String :=
+  match encOf fx enc, verOf ver, evs.mapM parseEvent with
   | some e, some v, some events =>
     let cfg : Cfg := ⟨v, e, cd, enc.toList.map Char.toNat⟩
     match serializeItems cfg events with
@@ -128,8 +129,10 @@ def runDoc (cd : CDataCfg) (enc ver : String) (evs : List String) : String :=
   | _, _, _ => "bad"
 
 def step (s : Unit) : List String → Unit × String
-  | "doc" :: "U" :: enc :: ver :: evs => (s, runDoc CDataCfg.generated enc ver evs)
-  | "docfixed" :: "U" :: enc :: ver :: evs => (s, runDoc CDataCfg.fixed enc ver evs)
+  | "doc" :: "U" :: enc :: ver :: evs => (s, runDoc CDataCfg.generated Fixes.generated enc ver evs)
+  | "docfixed" :: "U" :: enc :: ver :: evs => (s, runDoc CDataCfg.fixed Fixes.all enc ver evs)
+  | ["repairc", d] => (s, match unitsOfHex d with | some u => hexOfUnits (repairComment u) | none => "bad")
+  | ["repairp", d] => (s, match unitsOfHex d with | some u => hexOfUnits (repairPI u) | none => "bad")
   | "doc" :: _ :: _ => (s, "skip")
   | _ => (s, "bad")
 
